@@ -57,12 +57,16 @@ package reader
 // the caller's buffer and from the chunk buffer is in range, and the bytes of a chunk are placed at buffer position
 // (chunk start - offset) with the chunk's part below the requested offset discarded.
 //@ func (sf *file) ReadAt
-//@   props C02,C04
+//@   props C02,C04,C01
 //@   requires sf.fr != nil && sf.gr != nil && sf.gr.cache != nil && sf.gr.verifier != nil && 0 <= offset && offset < 1<<60
 //@   loop 0 invariant[C02,C04] 0 <= nr && nr <= len(p)
 //@   loop 0 invariant[C02] nr == 0 || nr == len(p) || cstart(sf.fr, offset + nr) == offset + nr
 //@   ensures[C02,C04] err == nil ==> 0 <= result0 && result0 <= len(p)
 //@   ensures[C02,C04] err != nil ==> result0 == 0
+// C01: bytes fetched from the blob count as read only after their chunk was verified (directly in the caller's buffer,
+// or in the temporary buffer they are copied from)
+//@   assert[C01] before "nr += n"#2 : sf.gr.verify ==> okDigest == chunkDigestStr && okData == ref(ip)
+//@   assert[C01] before "n := copy(p[nr:], ip[lowerDiscard:chunkSize-upperDiscard])" : sf.gr.verify ==> okDigest == chunkDigestStr && okData == ref(ip)
 
 // ---- C15 ----
 //@ func (vr *VerifiableReader) Metadata
@@ -85,3 +89,69 @@ package reader
 //@   requires vr != nil && r != nil && eg != nil && sem != nil && filter != nil
 //@   loop 0 step[C15] spawned == prev(spawned) + 1 && cok(fr, prev(nr)) && nr == prev(nr) + csize(fr, prev(nr))
 //@   ensures[C15] result && fr != nil ==> nr >= e.Size || !cok(fr, nr)
+
+// ---- C01: bytes are served or cached only after the chunk verifier accepted them against the TOC digest ----
+// vFor[v]: the chunk digest verifier v was created for; fed[v]: the buffer written into it; okDigest / okData: digest and
+// buffer of the last verifier that answered Verified() == true. SHA-256 itself is not modelled: "v.Verified() is true"
+// is taken to mean "the bytes written to v hash to the digest v was made for".
+//@ ghost vFor map[ref]string
+//@ ghost fed map[ref]ref
+//@ ghost okDigest string
+//@ ghost okData ref
+//@ uf tocOf(ref) string
+//@ type reader
+//@   callback verifier
+//@   modifies vFor[*]
+//@   ensures result1 == nil ==> result0 != nil && vFor[payload(result0)] == a1
+//@   params a0, a1
+//@ type VerifiableReader
+//@   callback verifier
+//@   modifies vFor[*]
+//@   ensures result1 == nil ==> result0 != nil && vFor[payload(result0)] == a1
+//@   params a0, a1
+//@ func interface github.com/opencontainers/go-digest.Verifier.Write
+//@   modifies fed[*]
+//@   ensures fed[payload(self)] == ref(p) && (forall x ref :: x != payload(self) ==> fed[x] == old(fed[x]))
+//@   ensures n == len(p) || err != nil
+//@ func interface github.com/opencontainers/go-digest.Verifier.Verified
+//@   modifies okDigest, okData
+//@   ensures result ==> okDigest == vFor[payload(self)] && okData == fed[payload(self)]
+//@   ensures !result ==> okDigest == old(okDigest) && okData == old(okData)
+//@ func interface metadata.Reader.TOCDigest
+//@   ensures result == tocOf(payload(self))
+// verifyChunk: success with verification switched on means a verifier made for exactly this digest accepted exactly this buffer
+//@ func (gr *reader) verifyChunk
+//@   props C01
+//@   requires gr.verifier != nil
+//@   ensures[C01] gr.verify && result == nil ==> okDigest == chunkDigestStr && okData == ref(p)
+// verifyAndCache: the chunk is handed to the cache only after it was verified
+//@ func (gr *reader) verifyOneChunk
+//@   props C01
+//@   requires gr.verifier != nil
+//@   ensures[C01] gr.verify && result == nil ==> okDigest == chunkDigestStr && okData == ref(ip)
+//@ func (gr *reader) verifyAndCache
+//@   props C01
+//@   requires gr.verifier != nil && gr.cache != nil
+//@   assert[C01] before "gr.cacheData(ip, cacheID)" : gr.verify ==> okDigest == chunkDigestStr && okData == ref(ip)
+//@   ensures[C01] gr.verify && result == nil ==> okDigest == chunkDigestStr && okData == ref(ip)
+// VerifyTOC: a reader is handed out only if the TOC actually used hashes to the pinned digest and no chunk failed
+// verification before; it switches verification on and never forgets a recorded failure
+//@ func (vr *VerifiableReader) VerifyTOC
+//@   props C01
+//@   requires vr.r != nil && vr.r.r != nil
+//@   ensures[C01] result1 == nil ==> result0 != nil && tocOf(payload(vr.r.r)) == tocDigest && vr.r.verify && old(vr.lastVerifyErr) == nil
+//@   ensures[C01] vr.lastVerifyErr == old(vr.lastVerifyErr) && (result1 == nil ==> vr.prohibitVerifyFailure)
+// readAndCache (prefetch / background walk): a chunk is committed to the cache only if its verifier accepted it, or --
+// before the TOC has been checked -- after the failure was recorded while holding the verification-mode lock with the
+// mode still "failures allowed" (VerifyTOC takes that lock exclusively, switches the mode and then reads the record,
+// so a recorded failure is always seen by it; afterwards failures abort the write instead).
+//@ ghost commits int
+//@ func interface cache.Writer.Commit
+//@   modifies commits
+//@   ensures commits == old(commits) + 1
+//@ func (vr *VerifiableReader) readAndCache
+//@   props C01
+//@   requires vr.r != nil && vr.r.cache != nil && vr.verifier != nil && fr != nil
+//@   assert[C01] before "vr.storeLastVerifyErr(err)"#1 : holds(vr.prohibitVerifyFailureMu) && !vr.prohibitVerifyFailure
+//@   assert[C01] before "vr.storeLastVerifyErr(err)"#2 : holds(vr.prohibitVerifyFailureMu) && !vr.prohibitVerifyFailure
+//@   assert[C01] before "return w.Commit()" : (v != nil && okDigest == chunkDigest) || vr.lastVerifyErr != nil
